@@ -1,191 +1,47 @@
-(** * Gen/ClientGenDecode.v — C20: decoding a response object into the struct built from the
-    finished [fields] / [typeConditions] maps yields exactly the selected leaves. *)
+(** * Gen/ClientGenDecodeS.v — C20: decoding a response object into the struct the generator of the
+    current tree builds yields exactly the selected leaves, for every naming [nm] of the members that
+    is injective on them and extends [field_name] of the key by underscores only (the counterpart of
+    ClientGenDecode.v; no hypothesis about clashes). *)
 From Coq Require Import List NArith ZArith Bool String Lia Permutation.
 From ApiFu Require Import Base.Sexp Gen.GoTypes Gen.ClientGenModel Gen.DecodeModel Gen.ClientGenSpec
-     Gen.ClientGenLemmas Gen.DecodeLemmas Gen.ClientGenProofs Gen.ClientGenGood Gen.ClientGenFinal.
+     Gen.ClientGenLemmas Gen.DecodeLemmas Gen.ClientGenProofs Gen.ClientGenGood Gen.ClientGenFinal
+     Gen.ClientGenDecode Gen.ClientGenGoodS Gen.ClientGenFinalS.
 Import ListNotations.
 Open Scope list_scope.
 Open Scope nat_scope.
 
-Lemma uniform_bound {X} (l : list X) (Q : X -> nat -> Prop) :
-  (forall x k k', Q x k -> k <= k' -> Q x k') ->
-  (forall x, In x l -> exists k, Q x k) ->
-  exists K, forall x, In x l -> Q x K.
+(** "good" relative to what is known about the declared fragment types ([FG]) *)
+Definition GoodDP (S : schema) (FG : program -> Prop) (mm : name) (sub : list selection) (core : gotype) : Prop :=
+  forall P, FG P -> type_syntax_ok core = true ->
+    (forall l, leafc S sub mm l = true -> json_of_leaf l <> JNull /\ decodes P core (json_of_leaf l) [([], l)]) /\
+    (forall tn rfs, objc S sub mm tn rfs = true -> decodes P core (json_of (RObj tn rfs)) (obje S sub mm tn rfs)).
+
+(** ** names that extend another by underscores *)
+Fixpoint all_us (l : bytes) : bool := match l with [] => true | c :: r => (c =? 95)%N && all_us r end.
+
+Lemma lower_us us : all_us us = true -> lower_bytes us = us.
 Proof.
-  intros Hm. induction l as [|y r IH]; intros H.
-  - exists 0. intros x [].
-  - destruct (H y (or_introl eq_refl)) as [k1 H1]. destruct IH as [k2 H2]; [intros x Hx; apply H; right; exact Hx|].
-    exists (Nat.max k1 k2). intros x [Hx|Hx]; [subst; apply (Hm _ _ _ H1); lia | apply (Hm _ _ _ (H2 _ Hx)); lia].
+  induction us as [|c r IH]; [reflexivity|]. simpl. intros H. apply andb_true_iff in H as [H1 H2].
+  apply N.eqb_eq in H1. subst c. rewrite (IH H2). reflexivity.
 Qed.
 
-(** what the recursive calls are known to produce, for decoding *)
-Section GoodD.
-  Variable S : schema.
-  Variable frs : list fragdef.
-  Let fragTypes := map (fun f => (fr_name f, fr_cond f)) frs.
+Lemma lower_app a b : lower_bytes (a ++ b) = lower_bytes a ++ lower_bytes b.
+Proof. unfold lower_bytes. apply map_app. Qed.
 
-  (** the program declares, for every fragment, the type generated from its definition *)
-  Definition frags_gen (P : program) : Prop :=
-    forall fr, In fr frs ->
-      exists core fuel st st',
-        gen_named no_quirks S fragTypes fuel (fr_cond fr) (fr_sels fr) st = Ok (core, true, st') /\
-        lookup_def P (frag_type_name (fr_name fr)) = Some (type_def (frag_type_name (fr_name fr)) core) /\
-        type_syntax_ok core = true.
-
-  Definition leafc (sub : list selection) : name -> leaf -> bool := fun n l => leaf_conf S n l && is_nil sub.
-  Definition objc (sub : list selection) : name -> name -> list (bytes * rv) -> bool :=
-    fun n tn' fs' => composite S n && is_object_type S tn' && subtype S tn' n && keys_distinct fs' &&
-                     forallb (conf_sel S tn' n fs') sub.
-  Definition obje (sub : list selection) : name -> name -> list (bytes * rv) -> list (path * leaf) :=
-    fun n tn' fs' => flat_map (exp_sel S tn' n fs') sub.
-
-  Definition GoodD (mm : name) (sub : list selection) (core : gotype) : Prop :=
-    forall P, frags_gen P -> type_syntax_ok core = true ->
-      (forall l, leafc sub mm l = true -> json_of_leaf l <> JNull /\ decodes P core (json_of_leaf l) [([], l)]) /\
-      (forall tn rfs, objc sub mm tn rfs = true -> decodes P core (json_of (RObj tn rfs)) (obje sub mm tn rfs)).
-
-  Lemma conf_sel_field tn t rfs a f sub :
-    conf_sel S tn t rfs (SField a f sub) =
-    match assoc (sel_key a f) rfs with
-    | None => false
-    | Some w =>
-        if is_typename f then match w with RLeaf (LStr x) => bytes_eqb x tn | _ => false end
-        else match field_type S t f with
-             | None => false
-             | Some ft => conf_val (leafc sub) (objc sub) ft false w
-             end
-    end.
-  Proof. reflexivity. Qed.
-
-  Lemma exp_sel_field tn t rfs a f sub :
-    exp_sel S tn t rfs (SField a f sub) =
-    match assoc (sel_key a f) rfs with
-    | None => []
-    | Some w =>
-        prefix (PKey (lower_bytes (sel_key a f)))
-          (if is_typename f then match w with RLeaf l => [([], l)] | _ => [] end
-           else match field_type S t f with
-                | None => []
-                | Some ft => exp_val (obje sub) ft w
-                end)
-    end.
-  Proof. reflexivity. Qed.
-
-  (** *** a response key selected more than once: the selection sets taken together *)
-  Lemma is_nil_concat (subs : list (list selection)) : (forall sub, In sub subs -> is_nil sub = true) -> is_nil (List.concat subs) = true.
-  Proof.
-    induction subs as [|x r IH]; intros H; [reflexivity|]. simpl.
-    pose proof (H x (or_introl eq_refl)) as Hx. destruct x; [|discriminate]. simpl. apply IH. intros sub Hs. apply H. right. exact Hs.
-  Qed.
-
-  Lemma conf_val_concat (subs : list (list selection)) ft : forall nn w,
-    subs <> [] ->
-    (forall sub, In sub subs -> conf_val (leafc sub) (objc sub) ft nn w = true) ->
-    conf_val (leafc (List.concat subs)) (objc (List.concat subs)) ft nn w = true.
-  Proof.
-    induction ft as [n|ft IH|ft IH]; intros nn w Hne H.
-    - destruct subs as [|s0 r]; [contradiction|]. pose proof (H s0 (or_introl eq_refl)) as H0.
-      destruct w as [|l|l|tn fs]; simpl in *.
-      + exact H0.
-      + unfold leafc in *. apply andb_true_iff in H0 as [H0 _]. rewrite H0. simpl.
-        apply (is_nil_concat (s0 :: r)). intros sub Hs. specialize (H sub Hs). apply andb_true_iff in H as [_ H]. exact H.
-      + exact H0.
-      + unfold objc in *. apply andb_true_iff in H0 as [H0 _]. rewrite H0. simpl.
-        apply forallb_forall. intros x Hx. change (s0 ++ List.concat r) with (List.concat (s0 :: r)) in Hx.
-        apply in_concat in Hx as [sub [Hs Hx]]. specialize (H sub Hs). apply andb_true_iff in H as [_ H].
-        rewrite forallb_forall in H. apply H. exact Hx.
-    - destruct subs as [|s0 r]; [contradiction|]. pose proof (H s0 (or_introl eq_refl)) as H0.
-      destruct w as [|l|l|tn fs]; simpl in *; try exact H0.
-      apply forallb_forall. intros x Hx. apply IH; [discriminate|].
-      intros sub Hs. specialize (H sub Hs). rewrite forallb_forall in H. apply H. exact Hx.
-    - simpl. apply IH; [exact Hne|]. intros sub Hs. apply (H sub Hs).
-  Qed.
-
-  Lemma exp_val_concat (subs : list (list selection)) ft : forall w p x,
-    subs <> [] ->
-    (In (p, x) (exp_val (obje (List.concat subs)) ft w) <-> exists sub, In sub subs /\ In (p, x) (exp_val (obje sub) ft w)).
-  Proof.
-    induction ft as [n|ft IH|ft IH]; intros w p x Hne.
-    - destruct subs as [|s0 r]; [contradiction|].
-      destruct w as [|l|l|tn fs]; simpl.
-      + split; [intros H; exists s0; split; [left; reflexivity | exact H] | intros [sub [_ H]]; exact H].
-      + split; [intros H; exists s0; split; [left; reflexivity | exact H] | intros [sub [_ H]]; exact H].
-      + split; [intros [] | intros [sub [_ []]]].
-      + unfold obje. change (s0 ++ List.concat r) with (List.concat (s0 :: r)). rewrite in_flat_map. split.
-        * intros [y [Hy Hp]]. apply in_concat in Hy as [sub [Hs Hy]]. exists sub. split; [exact Hs|].
-          apply in_flat_map. exists y. split; assumption.
-        * intros [sub [Hs Hp]]. apply in_flat_map in Hp as [y [Hy Hp]]. exists y. split; [|exact Hp].
-          apply in_concat. exists sub. split; assumption.
-    - destruct subs as [|s0 r] eqn:Es; [contradiction|]. rewrite <- Es in *.
-      assert (Hs0 : In s0 subs) by (rewrite Es; left; reflexivity).
-      destruct w as [|l|[|y l]|tn fs]; simpl.
-      + split; [intros H; exists s0; split; [exact Hs0 | exact H] | intros [sub [_ H]]; exact H].
-      + split; [intros H; exists s0; split; [exact Hs0 | exact H] | intros [sub [_ H]]; exact H].
-      + split; [intros H; exists s0; split; [exact Hs0 | exact H] | intros [sub [_ H]]; exact H].
-      + change (prefix (PIdx 0) (exp_val (obje (List.concat subs)) ft y) ++ exp_list (exp_val (obje (List.concat subs)) ft) 1 l)
-          with (exp_list (exp_val (obje (List.concat subs)) ft) 0 (y :: l)).
-        rewrite exp_list_In. split.
-        * intros [k [w' [p' [H1 [H2 H3]]]]]. apply (IH w' p' x Hne) in H3 as [sub [Hs H3]]. exists sub. split; [exact Hs|].
-          change (prefix (PIdx 0) (exp_val (obje sub) ft y) ++ exp_list (exp_val (obje sub) ft) 1 l)
-            with (exp_list (exp_val (obje sub) ft) 0 (y :: l)).
-          apply exp_list_In. exists k, w', p'. repeat split; assumption.
-        * intros [sub [Hs H]].
-          change (prefix (PIdx 0) (exp_val (obje sub) ft y) ++ exp_list (exp_val (obje sub) ft) 1 l)
-            with (exp_list (exp_val (obje sub) ft) 0 (y :: l)) in H.
-          apply exp_list_In in H as [k [w' [p' [H1 [H2 H3]]]]]. exists k, w', p'. split; [exact H1|]. split; [exact H2|].
-          apply (IH w' p' x Hne). exists sub. split; assumption.
-      + split; [intros H; exists s0; split; [exact Hs0 | exact H] | intros [sub [_ H]]; exact H].
-    - simpl. apply IH. exact Hne.
-  Qed.
-End GoodD.
-
-(** the selection sets of the selections of response key [k] *)
-Definition field_subs (k : name) (all : list selection) : list (list selection) :=
-  flat_map (fun o => match o with SField a f sub => if bytes_eqb (sel_key a f) k then [sub] else [] | _ => [] end) all.
-
-Lemma merged_field_concat k all : merged_field k all = List.concat (field_subs k all).
+Lemma strip_us_rev_us us r : all_us us = true -> strip_us_rev (rev us ++ r) = strip_us_rev r.
 Proof.
-  unfold merged_field, field_subs. induction all as [|o r IH]; [reflexivity|]. simpl.
-  destruct o as [a f sub| |]; simpl; try exact IH.
-  destruct (bytes_eqb (sel_key a f) k); simpl; [rewrite IH; reflexivity | exact IH].
+  revert r. induction us as [|c u IH]; intros r H; [reflexivity|]. simpl in H. apply andb_true_iff in H as [H1 H2].
+  simpl. rewrite <- app_assoc. rewrite (IH ([c] ++ r) H2). simpl. rewrite H1. reflexivity.
 Qed.
 
-Lemma field_subs_In k all sub : In sub (field_subs k all) <-> exists a f, In (SField a f sub) all /\ sel_key a f = k.
-Proof.
-  unfold field_subs. rewrite in_flat_map. split.
-  - intros [o [Ho H]]. destruct o as [a f sub'| |]; try (destruct H).
-    destruct (bytes_eqb (sel_key a f) k) eqn:E; [|destruct H]. destruct H as [H|[]]. subst sub'.
-    exists a, f. split; [exact Ho | apply bytes_eqb_true; exact E].
-  - intros [a [f [H E]]]. exists (SField a f sub). split; [exact H|]. rewrite E, bytes_eqb_refl. left. reflexivity.
-Qed.
+Lemma strip_us_ext x us : all_us us = true -> strip_us (x ++ us) = strip_us x.
+Proof. intros H. unfold strip_us. rewrite rev_app_distr. rewrite (strip_us_rev_us us (rev x) H). reflexivity. Qed.
 
-Lemma syntax_fields_inner fs :
-  (fix go (fs : list (name * gotag * gotype)) : bool :=
-     match fs with
-     | [] => true
-     | (_, tg, t') :: r => match tg with TagBoth _ => false | _ => true end && type_syntax_ok t' && go r
-     end) fs =
-  forallb (fun f : name * gotag * gotype => match snd (fst f) with TagBoth _ => false | _ => true end && type_syntax_ok (snd f)) fs.
-Proof. induction fs as [|[[n tg] t] r IH]; [reflexivity|]. simpl. rewrite IH. reflexivity. Qed.
+Lemma frag_label_ext x us : all_us us = true -> frag_label (x ++ us) = frag_label x.
+Proof. intros H. unfold frag_label. rewrite lower_app, (lower_us us H). apply strip_us_ext. exact H. Qed.
 
-Lemma NoDup_map_inj {A B} (g : A -> B) l x y : NoDup (map g l) -> In x l -> In y l -> g x = g y -> x = y.
-Proof.
-  induction l as [|z r IH]; simpl; [intros _ []|].
-  intros ND [Hx|Hx] [Hy|Hy] E; inversion ND as [|? ? Hn ND']; subst.
-  - reflexivity.
-  - exfalso. apply Hn. rewrite E. apply in_map. exact Hy.
-  - exfalso. apply Hn. rewrite <- E. apply in_map. exact Hx.
-  - apply IH; assumption.
-Qed.
-
-Lemma is_upper_title k : begins_with_letter k = true -> exported (title k) = true.
-Proof.
-  destruct k as [|c r]; simpl; [discriminate|]. unfold is_letter, upper. intros H.
-  destruct (is_lower c) eqn:El.
-  - unfold is_lower in El. apply andb_true_iff in El as [E1 E2]. apply N.leb_le in E1. apply N.leb_le in E2.
-    unfold is_upper. apply andb_true_iff. split; apply N.leb_le; lia.
-  - simpl in H. exact H.
-Qed.
+Lemma exported_app x us : x <> [] -> exported (x ++ us) = exported x.
+Proof. destruct x; [contradiction | reflexivity]. Qed.
 
 Section FinalDecode.
   Variable S : schema.
@@ -197,14 +53,20 @@ Section FinalDecode.
   Variable fields : list (name * (gotype * bool)).
   Variable conds : list (name * list name).
 
-  Notation Good := (GoodD S frs).
+  Variable FG : program -> Prop.
+  Notation Good := (GoodDP S FG).
   Hypothesis F1 : NoDup (map fst fields).
   Hypothesis F3 : forall k T dash, In (k, (T, dash)) fields -> entry_src S Good m all all k T dash.
   Hypothesis F4 : forall s, In s all -> entry_cov S Good m all fields s.
   Hypothesis F5 : forall s, In s all -> cond_cov frs m conds s.
   Hypothesis F6 : forall tc l x, In (tc, l) conds -> In x l -> cond_src frs m all tc x.
   Hypothesis E1 : lookup_type S m = Some d.
-  Hypothesis E2 : members_distinct m all = true.
+  Variable nm : name -> name.
+  Hypothesis Hnm : forall k1 T1 d1 k2 T2 d2,
+    In (k1, (T1, d1)) fields -> In (k2, (T2, d2)) fields -> nm k1 = nm k2 -> k1 = k2.
+  Hypothesis Hext : forall k T dash, In (k, (T, dash)) fields ->
+    exists us, nm k = field_name (untk k) ++ us /\ all_us us = true.
+  Hypothesis Huu : forall k T, In (k, (T, true)) fields -> starts_uu (untk k) = false.
   Hypothesis E3 : forall s, In s all -> sel_local S frs m s = true.
   Hypothesis E4 : has_fragment all = true -> is_object_type S m = true \/ exists k, first_typename all = Some k.
   Hypothesis E5 : forall k1 f1 k2 f2, In (k1, f1) (direct_fields all) -> In (k2, f2) (direct_fields all) ->
@@ -213,13 +75,13 @@ Section FinalDecode.
                               begins_with_letter k = true \/ (is_typename k = true /\ is_typename f = true).
 
   Variable idx : N.
-  Let fs := sort_fields (map mk_field fields).
+  Let fs := sort_fields (map (mk_field_f nm) fields).
   Let tnKey := match first_typename all with Some k => k | None => typename_name end.
-  Let steps := mk_steps no_quirks S m d tnKey conds.
+  Let steps := mk_steps_f S nm m d (nm (tk 0%N tnKey)) conds.
   Let core := match conds with [] => GStruct fs | _ :: _ => GSel m idx fs steps end.
 
   Variable P : program.
-  Hypothesis HP : frags_gen S frs P.
+  Hypothesis HP : FG P.
   Hypothesis Hsyn : type_syntax_ok core = true.
   Hypothesis HspreadD : forall F c body, In (SSpread F c body) all ->
     forall tn rfs, objc S body c tn rfs = true ->
@@ -276,13 +138,10 @@ Section FinalDecode.
     rewrite forallb_forall in H. specialize (H fld Hf). apply andb_true_iff in H. exact H.
   Qed.
 
-  Lemma entry_syntax k T dash : In (k, (T, dash)) fields ->
-    type_syntax_ok T = true /\ (dash = true -> equal_fold (field_name k) k = true).
+  Lemma entry_syntax k T dash : In (k, (T, dash)) fields -> type_syntax_ok T = true.
   Proof.
-    intros He. pose proof (entry_fs fields _ _ _ He) as Hf. fold fs in Hf.
-    destruct (fs_syntax _ Hf) as [H1 H2]. split; [exact H2|].
-    intros Hd. subst dash. unfold mk_field, gf_tag in H1. simpl in H1.
-    destruct (equal_fold (field_name k) k); [reflexivity | discriminate].
+    intros He. pose proof (entry_fs fields nm _ _ _ He) as Hf. fold fs in Hf.
+    destruct (fs_syntax _ Hf) as [H1 H2]. rewrite mk_field_f_type in H2. exact H2.
   Qed.
 
   (** *** each selection decodes (for large fuel) *)
@@ -290,7 +149,7 @@ Section FinalDecode.
     match s with
     | SField a f sub =>
         let k := sel_key a f in
-        exists T w v L, In (k, (T, false)) fields /\ assoc k rfs = Some w /\
+        exists T w v L, In (tk 0%N k, (T, false)) fields /\ assoc k rfs = Some w /\
                         (forall fuel, K <= fuel -> decode P fuel T (json_of w) = DOk v) /\
                         leaves_eq v L /\
                         (forall pl, In pl (exp_sel S tn m rfs s) -> In pl (prefix (PKey (lower_bytes k)) L)) /\
@@ -299,11 +158,11 @@ Section FinalDecode.
     | SInline c sub =>
         let c' := inline_cond m c in
         subtype S tn c' = true ->
-        exists T v, In (c', (T, true)) fields /\ (forall fuel, K <= fuel -> decode P fuel T j = DOk v) /\ v <> VNil /\
+        exists T v, In (tk 1%N c', (T, true)) fields /\ (forall fuel, K <= fuel -> decode P fuel T j = DOk v) /\ v <> VNil /\
                     leaves_eq v (obje S (merged_inline m c' all) c' tn rfs)
     | SSpread F c body =>
         subtype S tn c = true ->
-        exists v, In (F, (GPtr (GFragRef F), true)) fields /\
+        exists v, In (tk 2%N F, (GPtr (GFragRef F), true)) fields /\
                   (forall fuel, K <= fuel -> decode P fuel (GPtr (GFragRef F)) j = DOk v) /\ v <> VNil /\
                   leaves_eq v (obje S body c tn rfs)
     end.
@@ -334,7 +193,7 @@ Section FinalDecode.
     - (* field *)
       rewrite conf_sel_field in Hcs. destruct Hcov as [T [He Hft]].
       destruct (assoc (sel_key a f) rfs) as [w|] eqn:Ea; [|discriminate].
-      destruct (entry_syntax _ _ _ He) as [HsynT _].
+      pose proof (entry_syntax _ _ _ He) as HsynT.
       destruct Hft as [[Htn HT]|[Htn [ft [core0 [Eft [HT Hg]]]]]].
       + rewrite Htn in Hcs. destruct w as [|[| | |x|]| |]; try discriminate. subst T.
         exists 1, GString, (RLeaf (LStr x)), (VStr x), [([], LStr x)].
@@ -382,7 +241,7 @@ Section FinalDecode.
       simpl in Hcov. destruct Hcov as [core0 [He Hg]]. simpl in Hloc. apply andb_true_iff in Hloc as [Hcc _].
       set (c' := inline_cond m c) in *.
       assert (Hdec : subtype S tn c' = true -> decodes P core0 j (obje S (merged_inline m c' all) c' tn rfs)).
-      { intros Hsub. destruct (entry_syntax _ _ _ He) as [HsynT _]. simpl in HsynT.
+      { intros Hsub. pose proof (entry_syntax _ _ _ He) as HsynT. simpl in HsynT.
         destruct (Hg P HP HsynT) as [_ Hobj]. rewrite <- json_is_obj. apply Hobj.
         unfold objc. rewrite Hcc, Hot, Hsub. simpl.
         unfold objc in Hconf. apply andb_true_iff in Hconf as [Hk _]. apply andb_true_iff in Hk as [_ Hk]. rewrite Hk. simpl.
@@ -409,57 +268,64 @@ Section FinalDecode.
 
   (** *** JSON names of the struct fields *)
   Lemma field_key_props k T : In (k, (T, false)) fields ->
-    exists a f sub, In (SField a f sub) all /\ k = sel_key a f /\ In (k, f) (direct_fields all).
+    exists a f sub, In (SField a f sub) all /\ k = tk 0%N (sel_key a f) /\ In (sel_key a f, f) (direct_fields all).
   Proof.
     intros He. destruct (F3 _ _ _ He) as [[_ [a [f [sub [H1 [H2 _]]]]]]|[[Hd _]|[Hd _]]]; try discriminate.
-    exists a, f, sub. split; [exact H1|]. split; [exact H2|]. subst k. unfold direct_fields. apply in_flat_map.
+    exists a, f, sub. split; [exact H1|]. split; [exact H2|]. unfold direct_fields. apply in_flat_map.
     exists (SField a f sub). split; [exact H1 | left; reflexivity].
   Qed.
 
-  Lemma exported_key k f : In (k, f) (direct_fields all) -> exported (field_name k) = true.
+  Lemma exported_plain k f : In (k, f) (direct_fields all) -> exported (field_name k) = true /\ field_name k <> [].
   Proof.
     intros H. destruct (E6 _ _ H) as [Hl|[Ht _]].
-    - rewrite field_name_plain; [apply is_upper_title; exact Hl|].
-      destruct k as [|c [|c2 r]]; try reflexivity. simpl in Hl. simpl.
-      destruct (N.eqb c 95) eqn:Ec; [|reflexivity]. apply N.eqb_eq in Ec. subst c. discriminate.
-    - apply bytes_eqb_true in Ht. subst k. reflexivity.
+    - assert (Hfn : field_name k = title k).
+      { apply field_name_plain. destruct k as [|c [|c2 r]]; try reflexivity. simpl in Hl. simpl.
+        destruct (N.eqb c 95) eqn:Ec; [|reflexivity]. apply N.eqb_eq in Ec. subst c. discriminate. }
+      rewrite Hfn. split; [apply is_upper_title; exact Hl|]. destruct k; [discriminate Hl | discriminate].
+    - apply bytes_eqb_true in Ht. subst k. split; [reflexivity | discriminate].
   Qed.
+
+  Lemma exported_key K T : In (K, (T, false)) fields -> exported (nm K) = true.
+  Proof.
+    intros He. destruct (field_key_props _ _ He) as [a [f [sub [_ [Ek Hd]]]]].
+    destruct (Hext _ _ _ He) as [us [En _]]. rewrite En. subst K. cbn [untk tk tl].
+    destruct (exported_plain _ _ Hd) as [H1 H2]. rewrite (exported_app _ us H2). exact H1.
+  Qed.
+
+  Lemma nm_lower K T dash : In (K, (T, dash)) fields -> equal_fold (nm K) (untk K) = true -> lower_bytes (nm K) = lower_bytes (untk K).
+  Proof. intros _ H. apply equal_fold_eq. exact H. Qed.
 
   Lemma nondash_json k T : In (k, (T, false)) fields ->
-    exists nm, json_name (mk_field (k, (T, false))) = Some nm /\ lower_bytes nm = lower_bytes k.
+    exists x, json_name (mk_field_f nm (k, (T, false))) = Some x /\ lower_bytes x = lower_bytes (untk k).
   Proof.
-    intros He. destruct (field_key_props _ _ He) as [a [f [sub [_ [_ Hd]]]]].
-    unfold json_name, mk_field, gf_name, gf_tag. simpl. rewrite (exported_key _ _ Hd). simpl.
-    destruct (equal_fold (field_name k) k) eqn:Ef; simpl.
-    - exists (field_name k). split; [reflexivity|]. apply equal_fold_eq. exact Ef.
-    - exists k. split; reflexivity.
+    intros He. unfold json_name, mk_field_f, gf_name, gf_tag. cbn [fst snd]. rewrite (exported_key _ _ He). cbn [negb].
+    destruct (equal_fold (nm k) (untk k)) eqn:Ef; cbn [negb].
+    - exists (nm k). split; [reflexivity|]. apply equal_fold_eq. exact Ef.
+    - exists (untk k). split; reflexivity.
   Qed.
 
-  Lemma dash_json k T : json_name (mk_field (k, (T, true))) = None.
-  Proof.
-    unfold json_name, mk_field, gf_name, gf_tag. simpl. destruct (negb (exported (field_name k))); [reflexivity|].
-    destruct (negb (equal_fold (field_name k) k)); reflexivity.
-  Qed.
+  Lemma dash_json k T : json_name (mk_field_f nm (k, (T, true))) = None.
+  Proof. unfold json_name, mk_field_f, gf_name, gf_tag. cbn [fst snd]. destruct (negb (exported (nm k))); reflexivity. Qed.
 
-  Lemma json_name_nondash fld nm : In fld fs -> json_name fld = Some nm ->
-    exists k T, In (k, (T, false)) fields /\ fld = mk_field (k, (T, false)) /\ lower_bytes nm = lower_bytes k.
+  Lemma json_name_nondash fld x : In fld fs -> json_name fld = Some x ->
+    exists k T, In (k, (T, false)) fields /\ fld = mk_field_f nm (k, (T, false)) /\ lower_bytes x = lower_bytes (untk k).
   Proof.
-    intros Hf Hn. destruct (fs_entry fields _ Hf) as [k [T [dash [He Ef]]]]. subst fld.
+    intros Hf Hn. destruct (fs_entry fields nm _ Hf) as [k [T [dash [He Ef]]]]. subst fld.
     destruct dash; [rewrite dash_json in Hn; discriminate|].
-    destruct (nondash_json _ _ He) as [nm' [H1 H2]]. rewrite H1 in Hn. inversion Hn; subst nm'.
+    destruct (nondash_json _ _ He) as [x' [H1 H2]]. rewrite H1 in Hn. inversion Hn; subst x'.
     exists k, T. split; [exact He|]. split; [reflexivity | exact H2].
   Qed.
 
   Lemma key_lower_inj k1 T1 k2 T2 :
-    In (k1, (T1, false)) fields -> In (k2, (T2, false)) fields -> lower_bytes k1 = lower_bytes k2 -> k1 = k2.
+    In (k1, (T1, false)) fields -> In (k2, (T2, false)) fields -> lower_bytes (untk k1) = lower_bytes (untk k2) -> k1 = k2.
   Proof.
-    intros H1 H2 E. destruct (field_key_props _ _ H1) as [a1 [f1 [s1 [_ [_ D1]]]]].
-    destruct (field_key_props _ _ H2) as [a2 [f2 [s2 [_ [_ D2]]]]].
-    destruct (E5 _ _ _ _ D1 D2 E) as [H _]. exact H.
+    intros H1 H2 E. destruct (field_key_props _ _ H1) as [a1 [f1 [s1 [_ [E1' D1]]]]].
+    destruct (field_key_props _ _ H2) as [a2 [f2 [s2 [_ [E2' D2]]]]]. subst k1 k2. cbn [untk tk tl] in E.
+    destruct (E5 _ _ _ _ D1 D2 E) as [H _]. rewrite H. reflexivity.
   Qed.
 
   Lemma fs_names_nd : NoDup (map gf_name fs).
-  Proof. apply (fs_names_nodup S Good m all fields F1 F3 E2). Qed.
+  Proof. apply (fs_names_nodup fields F1 nm Hnm). Qed.
 
   Lemma fs_apart : names_apart fs.
   Proof.
@@ -479,23 +345,23 @@ Section FinalDecode.
   Lemma K_pos : forall T jv v, decode P K T jv = DOk v -> exists K', K = Datatypes.S K'.
   Proof. intros T jv v H. destruct K as [|K']; [discriminate | exists K'; reflexivity]. Qed.
 
-  Lemma base_hdec fld nm k v :
-    In fld fs -> json_name fld = Some nm -> In (k, v) kvs -> lower_bytes nm = lower_bytes k ->
+  Lemma base_hdec fld jn k v :
+    In fld fs -> json_name fld = Some jn -> In (k, v) kvs -> lower_bytes jn = lower_bytes k ->
     exists x, dec (gf_type fld) v = DOk x.
   Proof.
     intros Hf Hn Hkv El. destruct (json_name_nondash _ _ Hf Hn) as [k0 [T [He [Ef L0]]]]. subst fld.
-    destruct (field_key_props _ _ He) as [a [f [sub [Hs [Ek _]]]]].
-    pose proof (HK _ Hs) as Hq. simpl in Hq. rewrite <- Ek in Hq.
+    destruct (field_key_props _ _ He) as [a [f [sub [Hs [Ek _]]]]]. subst k0. cbn [untk tk tl] in L0.
+    pose proof (HK _ Hs) as Hq. simpl in Hq.
     destruct Hq as [T' [w [v0 [L [He' [Ha [Hd _]]]]]]].
     destruct (entry_unique fields F1 _ _ _ _ _ He He') as [ET _]. subst T'.
     destruct (kvs_unique _ _ _ _ Ha Hkv) as [_ Ev]; [congruence|]. subst v.
-    exists v0. rewrite mk_field_type. simpl. apply Hd. apply le_n.
+    exists v0. rewrite mk_field_f_type. simpl. apply Hd. apply le_n.
   Qed.
 
   Lemma base_exists : exists base, decode_struct dec fs j = DOk base /\ slots_ok dec fs kvs base.
   Proof.
     destruct conf_parts as [_ [_ [_ [ND _]]]].
-    apply (decode_struct_obj dec fs kvs ND fs_apart). intros fld nm k v. apply base_hdec.
+    apply (decode_struct_obj dec fs kvs ND fs_apart). intros fld jn k v. apply base_hdec.
   Qed.
 
   Variable base : sval.
@@ -506,9 +372,9 @@ Section FinalDecode.
   Lemma slot_field a f sub :
     In (SField a f sub) all ->
     exists i T w v L,
-      In (sel_key a f, (T, false)) fields /\
-      nth_error fs i = Some (mk_field (sel_key a f, (T, false))) /\
-      nth_error base i = Some (gf_name (mk_field (sel_key a f, (T, false))), gf_tag (mk_field (sel_key a f, (T, false))), v) /\
+      In (tk 0%N (sel_key a f), (T, false)) fields /\
+      nth_error fs i = Some (mk_field_f nm (tk 0%N (sel_key a f), (T, false))) /\
+      nth_error base i = Some (gf_name (mk_field_f nm (tk 0%N (sel_key a f), (T, false))), gf_tag (mk_field_f nm (tk 0%N (sel_key a f), (T, false))), v) /\
       assoc (sel_key a f) rfs = Some w /\ decode P K T (json_of w) = DOk v /\
       leaves_eq v L /\
       (forall pl, In pl (exp_sel S tn m rfs (SField a f sub)) -> In pl (prefix (PKey (lower_bytes (sel_key a f))) L)) /\
@@ -517,10 +383,10 @@ Section FinalDecode.
   Proof.
     intros Hs. pose proof (HK _ Hs) as Hq. simpl in Hq.
     destruct Hq as [T [w [v [L [He [Ha [Hd [Hl Hx]]]]]]]].
-    pose proof (entry_fs fields _ _ _ He) as Hf. fold fs in Hf. apply In_nth_error in Hf as [i Hi].
+    pose proof (entry_fs fields nm _ _ _ He) as Hf. fold fs in Hf. apply In_nth_error in Hf as [i Hi].
     destruct Hslots as [_ Hsl]. destruct (Hsl _ _ Hi) as [e [Hei [He1 He2]]].
-    destruct (nondash_json _ _ He) as [nm [Hn El]]. rewrite Hn in He2. destruct He2 as [Hv _].
-    pose proof (Hv _ _ (assoc_kvs _ _ Ha) El) as Hdv. rewrite mk_field_type in Hdv. simpl in Hdv.
+    destruct (nondash_json _ _ He) as [jn [Hn El]]. rewrite Hn in He2. destruct He2 as [Hv _].
+    pose proof (Hv _ _ (assoc_kvs _ _ Ha) El) as Hdv. rewrite mk_field_f_type in Hdv. simpl in Hdv.
     unfold dec in Hdv. rewrite (Hd K (le_n _)) in Hdv. inversion Hdv as [Ev].
     exists i, T, w, v, L. split; [exact He|]. split; [exact Hi|]. split.
     { rewrite Hei. destruct e as [[n0 tg0] x0]. simpl in He1, Ev. inversion He1; subst. reflexivity. }
@@ -529,7 +395,7 @@ Section FinalDecode.
 
   (** the field holding __typename holds [tn] *)
   Lemma typename_slot : (exists k0, first_typename all = Some k0) ->
-    exists i n tg, find_index (by_name (field_name tnKey)) fs = Some i /\ nth_error base i = Some (n, tg, VStr tn).
+    exists i n tg, find_index (by_name (nm (tk 0%N tnKey))) fs = Some i /\ nth_error base i = Some (n, tg, VStr tn).
   Proof.
     intros [k0 Hk0]. destruct (first_typename_In _ _ Hk0) as [a [f [sub [Hs [Htn Ek]]]]].
     destruct (slot_field _ _ _ Hs) as [i [T [w [v [L [He [Hi [Hb [Ha [Hd _]]]]]]]]]].
@@ -541,7 +407,7 @@ Section FinalDecode.
     destruct (K_pos _ _ _ Hd) as [K' EK]. rewrite EK in Hd. simpl in Hd. inversion Hd; subst v.
     exists i. eexists. eexists. split; [|exact Hb].
     unfold tnKey. rewrite Hk0, <- Ek. pose proof (find_by_name fs fs_names_nd i _ Hi) as Hfi.
-    rewrite mk_field_name in Hfi. exact Hfi.
+    rewrite mk_field_f_name in Hfi. exact Hfi.
   Qed.
 
   (** the condition of a fragment entry holds exactly when its statement group fires *)
@@ -554,19 +420,19 @@ Section FinalDecode.
   Qed.
 
   Definition step_for (tc x : name) : ustep :=
-    if is_known no_quirks S m d tc then UAlways (field_name x)
-    else USwitch (field_name tnKey) (ok_types no_quirks S tc) (field_name x).
+    if is_known no_quirks S m d tc then UAlways (nm x)
+    else USwitch (nm (tk 0%N tnKey)) (ok_types no_quirks S tc) (nm x).
 
   Lemma steps_In st : In st steps <-> exists tc l x, In (tc, l) conds /\ In x l /\ st = step_for tc x.
   Proof.
-    unfold steps, mk_steps, step_for. rewrite in_flat_map. split.
+    unfold steps, mk_steps_f, step_for. rewrite in_flat_map. split.
     - intros [[tc l] [H1 H2]]. destruct (is_known no_quirks S m d tc) eqn:Ek; apply in_map_iff in H2 as [x [Ex Hx]];
         exists tc, l, x; rewrite Ek; (split; [exact H1|]; split; [exact Hx | symmetry; exact Ex]).
     - intros [tc [l [x [H1 [Hx Est]]]]]. exists (tc, l). split; [exact H1|]. subst st.
       destruct (is_known no_quirks S m d tc); apply in_map_iff; exists x; split; auto.
   Qed.
 
-  Lemma step_for_target tc x : step_target_name (step_for tc x) = field_name x.
+  Lemma step_for_target tc x : step_target_name (step_for tc x) = nm x.
   Proof. unfold step_for. destruct (is_known no_quirks S m d tc); reflexivity. Qed.
 
   Lemma step_for_fires tc l x : In (tc, l) conds -> In x l ->
@@ -581,20 +447,20 @@ Section FinalDecode.
 
   (** the entry, the position and the type condition of a name listed in [typeConditions] *)
   Lemma cond_target tc l x : In (tc, l) conds -> In x l ->
-    exists T i, In (x, (T, true)) fields /\ nth_error fs i = Some (mk_field (x, (T, true))) /\
+    exists T i, In (x, (T, true)) fields /\ nth_error fs i = Some (mk_field_f nm (x, (T, true))) /\
                 (subtype S tn tc = true -> exists v, decode P K T j = DOk v /\ v <> VNil).
   Proof.
     intros H1 Hx. destruct (cond_entry S frs Good m all fields conds F4 F6 _ _ _ H1 Hx) as [T He].
-    pose proof (entry_fs fields _ _ _ He) as Hf. fold fs in Hf. apply In_nth_error in Hf as [i Hi].
+    pose proof (entry_fs fields nm _ _ _ He) as Hf. fold fs in Hf. apply In_nth_error in Hf as [i Hi].
     exists T, i. split; [exact He|]. split; [exact Hi|]. intros Hsub.
-    destruct (F6 _ _ _ H1 Hx) as [[Ex [c [sub [Hs Hc]]]]|[c [body [Hs Hc]]]].
+    destruct (F6 _ _ _ H1 Hx) as [[Ex [c [sub [Hs Hc]]]]|[f0 [c [body [Hs [Ex Hc]]]]]].
     - subst x. pose proof (HK _ Hs) as Hq. simpl in Hq. rewrite Hc in Hq.
       destruct (Hq Hsub) as [T' [v [He' [Hd [Hn _]]]]].
       destruct (entry_unique fields F1 _ _ _ _ _ He He') as [ET _]. subst T'. exists v. split; [apply Hd; apply le_n | exact Hn].
-    - pose proof (HK _ Hs) as Hq. simpl in Hq.
+    - subst x. pose proof (HK _ Hs) as Hq. simpl in Hq.
       assert (Ec : c = tc).
       { pose proof (E3 _ Hs) as Hl. simpl in Hl. apply andb_true_iff in Hl as [_ Hf].
-        destruct (find_frag frs x) as [fr|] eqn:Ef; [|discriminate]. apply andb_true_iff in Hf as [Hf _].
+        destruct (find_frag frs f0) as [fr|] eqn:Ef; [|discriminate]. apply andb_true_iff in Hf as [Hf _].
         apply bytes_eqb_true in Hf. subst tc. unfold frag_cond. rewrite assoc_fragTypes, Ef. symmetry. exact Hf. }
       subst c. destruct (Hq Hsub) as [v [He' [Hd [Hn _]]]].
       destruct (entry_unique fields F1 _ _ _ _ _ He He') as [ET _]. subst T. exists v. split; [apply Hd; apply le_n | exact Hn].
@@ -608,9 +474,9 @@ Section FinalDecode.
     - unfold step_for. destruct (is_known no_quirks S m d tc) eqn:Ek; [exact I|].
       destruct (typename_slot (not_known_typename _ _ _ H1 Hx Ek)) as [i0 [n [tg [Hfi Hb]]]].
       exists i0, n, tg, tn. split; assumption.
-    - exists i, (mk_field (x, (T, true))). split; [exact Hi|]. split; [rewrite mk_field_name, step_for_target; reflexivity|].
+    - exists i, (mk_field_f nm (x, (T, true))). split; [exact Hi|]. split; [rewrite mk_field_f_name, step_for_target; reflexivity|].
       rewrite (step_for_fires _ _ _ H1 Hx). intros Hsub. destruct (Hdec Hsub) as [v [Hd _]].
-      exists v. rewrite mk_field_type. exact Hd.
+      exists v. rewrite mk_field_f_type. exact Hd.
   Qed.
 
   Lemma base_aligned : aligned fs base.
@@ -620,13 +486,13 @@ Section FinalDecode.
   Qed.
 
   (** which fields the statement groups write *)
-  Lemma fired_nondash k T : In (k, (T, false)) fields -> fired fs base steps (field_name k) = false.
+  Lemma fired_nondash k T : In (k, (T, false)) fields -> fired fs base steps (nm k) = false.
   Proof.
     intros He. unfold fired. destruct (existsb _ steps) eqn:E; [|reflexivity]. exfalso.
     apply existsb_exists in E as [st [Hst E]]. apply andb_true_iff in E as [_ E]. apply bytes_eqb_true in E.
     apply steps_In in Hst as [tc [l [x [H1 [Hx Est]]]]]. subst st. rewrite step_for_target in E.
     destruct (cond_entry S frs Good m all fields conds F4 F6 _ _ _ H1 Hx) as [T' He'].
-    assert (x = k) by (apply (field_name_inj S Good m all fields F3 E2 _ _ _ _ _ _ He' He E)). subst x.
+    assert (x = k) by (apply (Hnm _ _ _ _ _ _ He' He E)). subst x.
     destruct (entry_unique fields F1 _ _ _ _ _ He He') as [_ Ed]. discriminate.
   Qed.
 
@@ -634,7 +500,7 @@ Section FinalDecode.
     In (x, (T, true)) fields ->
     (forall tc l, In (tc, l) conds -> In x l -> tc = tcx) ->
     (exists l, In (tcx, l) conds /\ In x l) ->
-    fired fs base steps (field_name x) = subtype S tn tcx.
+    fired fs base steps (nm x) = subtype S tn tcx.
   Proof.
     intros He Huniq [l [H1 Hx]]. unfold fired. destruct (subtype S tn tcx) eqn:Esub.
     - apply existsb_exists. exists (step_for tcx x). split; [apply steps_In; exists tcx, l, x; repeat split; assumption|].
@@ -643,7 +509,7 @@ Section FinalDecode.
       apply existsb_exists in E as [st [Hst E]]. apply andb_true_iff in E as [Ef E]. apply bytes_eqb_true in E.
       apply steps_In in Hst as [tc [l' [x' [H1' [Hx' Est]]]]]. subst st. rewrite step_for_target in E.
       destruct (cond_entry S frs Good m all fields conds F4 F6 _ _ _ H1' Hx') as [T' He'].
-      assert (x' = x) by (apply (field_name_inj S Good m all fields F3 E2 _ _ _ _ _ _ He' He E)). subst x'.
+      assert (x' = x) by (apply (Hnm _ _ _ _ _ _ He' He E)). subst x'.
       assert (Etc : tc = tcx) by (apply (Huniq _ _ H1' Hx')). subst tc.
       rewrite (step_for_fires _ _ _ H1' Hx'), Esub in Ef. discriminate.
   Qed.
@@ -660,28 +526,31 @@ Section FinalDecode.
   Qed.
 
   Lemma field_leaves_nondash k T v : In (k, (T, false)) fields ->
-    field_leaves (gf_name (mk_field (k, (T, false))), gf_tag (mk_field (k, (T, false))), v) =
-    prefix (PKey (lower_bytes k)) (leaves v).
+    field_leaves (gf_name (mk_field_f nm (k, (T, false))), gf_tag (mk_field_f nm (k, (T, false))), v) =
+    prefix (PKey (lower_bytes (untk k))) (leaves v).
   Proof.
-    intros He. unfold mk_field, gf_name, gf_tag, field_leaves. simpl.
-    destruct (equal_fold (field_name k) k) eqn:Ef; simpl; [|reflexivity].
+    intros He. unfold mk_field_f, gf_name, gf_tag, field_leaves. cbn [fst snd].
+    destruct (equal_fold (nm k) (untk k)) eqn:Ef; cbn [negb]; [|reflexivity].
     apply equal_fold_eq in Ef. rewrite Ef. reflexivity.
   Qed.
 
-  Lemma field_leaves_dash k T v : In (k, (T, true)) fields -> v <> VNil ->
-    field_leaves (gf_name (mk_field (k, (T, true))), gf_tag (mk_field (k, (T, true))), v) =
-    prefix (PFrag (frag_label k)) (leaves v).
+  Lemma dash_label k T : In (k, (T, true)) fields -> frag_label (nm k) = frag_label (untk k).
   Proof.
-    intros He Hv. destruct (entry_syntax _ _ _ He) as [_ Hf]. specialize (Hf eq_refl).
-    unfold mk_field, gf_name, gf_tag, field_leaves. simpl. rewrite Hf. simpl.
-    apply equal_fold_eq in Hf. unfold frag_label. rewrite Hf. destruct v; try reflexivity. contradiction.
+    intros He. destruct (Hext _ _ _ He) as [us [En Hus]]. rewrite En, (frag_label_ext _ us Hus).
+    unfold frag_label. pose proof (field_name_fold (untk k) (Huu _ _ He)) as Hf. apply equal_fold_eq in Hf. rewrite Hf. reflexivity.
+  Qed.
+
+  Lemma field_leaves_dash k T v : In (k, (T, true)) fields -> v <> VNil ->
+    field_leaves (gf_name (mk_field_f nm (k, (T, true))), gf_tag (mk_field_f nm (k, (T, true))), v) =
+    prefix (PFrag (frag_label (untk k))) (leaves v).
+  Proof.
+    intros He Hv. unfold mk_field_f, gf_name, gf_tag, field_leaves. cbn [fst snd]. rewrite (dash_label _ _ He).
+    destruct v; try reflexivity. contradiction.
   Qed.
 
   Lemma field_leaves_dash_nil k T :
-    field_leaves (gf_name (mk_field (k, (T, true))), gf_tag (mk_field (k, (T, true))), VNil) = [].
-  Proof.
-    unfold mk_field, gf_name, gf_tag, field_leaves. simpl. destruct (negb (equal_fold (field_name k) k)); reflexivity.
-  Qed.
+    field_leaves (gf_name (mk_field_f nm (k, (T, true))), gf_tag (mk_field_f nm (k, (T, true))), VNil) = [].
+  Proof. reflexivity. Qed.
 
   Lemma spread_cond F c body : In (SSpread F c body) all -> frag_cond frs F = c.
   Proof.
@@ -691,25 +560,26 @@ Section FinalDecode.
   Qed.
 
   Lemma inline_cond_uniq c sub : In (SInline c sub) all ->
-    forall tc l, In (tc, l) conds -> In (inline_cond m c) l -> tc = inline_cond m c.
+    forall tc l, In (tc, l) conds -> In (tk 1%N (inline_cond m c)) l -> tc = inline_cond m c.
   Proof.
-    intros Hs tc l H1 Hx. destruct (F6 _ _ _ H1 Hx) as [[Ex _]|[c0 [body [Hs0 _]]]]; [symmetry; exact Ex|].
-    exfalso. apply (kinds_disjoint m all (SInline c sub) (SSpread (inline_cond m c) c0 body) E2 Hs Hs0); [reflexivity | discriminate].
+    intros Hs tc l H1 Hx. destruct (F6 _ _ _ H1 Hx) as [[Ex _]|[f0 [c0 [body [Hs0 [Ex _]]]]]].
+    - apply tk_inj in Ex as [_ Ex]. symmetry. exact Ex.
+    - apply tk_inj in Ex as [Ex _]. discriminate Ex.
   Qed.
 
   Lemma spread_cond_uniq F c body : In (SSpread F c body) all ->
-    forall tc l, In (tc, l) conds -> In F l -> tc = c.
+    forall tc l, In (tc, l) conds -> In (tk 2%N F) l -> tc = c.
   Proof.
-    intros Hs tc l H1 Hx. destruct (F6 _ _ _ H1 Hx) as [[Ex [c0 [sub0 [Hs0 Hc0]]]]|[c0 [body0 [Hs0 Ec]]]].
-    - exfalso. apply (kinds_disjoint m all (SInline c0 sub0) (SSpread F c body) E2 Hs0 Hs); [simpl; congruence | discriminate].
-    - rewrite Ec. apply (spread_cond _ _ _ Hs).
+    intros Hs tc l H1 Hx. destruct (F6 _ _ _ H1 Hx) as [[Ex _]|[f0 [c0 [body0 [Hs0 [Ex Ec]]]]]].
+    - apply tk_inj in Ex as [Ex _]. discriminate Ex.
+    - apply tk_inj in Ex as [_ Ex]. subst f0. rewrite Ec. apply (spread_cond _ _ _ Hs).
   Qed.
 
   Lemma fired_entry k T dash :
-    fired fs base steps (gf_name (mk_field (k, (T, dash)))) = fired fs base steps (field_name k).
-  Proof. rewrite mk_field_name. reflexivity. Qed.
+    fired fs base steps (gf_name (mk_field_f nm (k, (T, dash)))) = fired fs base steps (nm k).
+  Proof. rewrite mk_field_f_name. reflexivity. Qed.
 
-  Opaque mk_field.
+  Opaque mk_field_f.
   Theorem final_value :
     exists sv', run_steps dec fs j base steps base = DOk sv' /\ leaves_eq (VStruct sv') (obje S all m tn rfs).
   Proof.
@@ -723,10 +593,10 @@ Section FinalDecode.
       { rewrite <- Hlen. apply nth_error_Some. congruence. }
       destruct (nth_error fs i) as [fld|] eqn:Ef; [|apply nth_error_None in Ef; lia].
       destruct (Hres _ _ Ef) as [Hyes Hno].
-      destruct (fs_entry fields _ (nth_error_In _ _ Ef)) as [k [T [dash [Hent Efld]]]]. subst fld.
+      destruct (fs_entry fields nm _ (nth_error_In _ _ Ef)) as [k [T [dash [Hent Efld]]]]. subst fld.
       destruct dash.
       + (* a fragment field *)
-        destruct (F3 _ _ _ Hent) as [[Hd _]|[[_ [c [sub [Hs [Ek [core0 [ET _]]]]]]]|[_ [c [body [Hs ET]]]]]]; [discriminate| |].
+        destruct (F3 _ _ _ Hent) as [[Hd _]|[[_ [c [sub [Hs [Ek [core0 [ET _]]]]]]]|[_ [F0 [c [body [Hs [Ek ET]]]]]]]]; [discriminate| |].
         * (* inline fragment *)
           subst k. pose proof (fired_dash _ _ (inline_cond m c) Hent (inline_cond_uniq _ _ Hs) (F5 _ Hs)) as Hf.
           rewrite fired_entry, Hf in Hyes, Hno.
@@ -734,36 +604,36 @@ Section FinalDecode.
           -- destruct (Hyes eq_refl) as [x [Hdx Hsx]]. rewrite Hsx in Hi. injection Hi as Ee. subst e.
              pose proof (HK _ Hs) as Hq. simpl in Hq. destruct (Hq Esub) as [T' [v [He' [Hd [Hn Hl]]]]].
              destruct (entry_unique fields F1 _ _ _ _ _ Hent He') as [ET' _]. subst T'.
-             try rewrite mk_field_type in Hdx. simpl in Hdx. unfold dec in Hdx. rewrite (Hd K (le_n _)) in Hdx. inversion Hdx; subst x.
+             try rewrite mk_field_f_type in Hdx. simpl in Hdx. unfold dec in Hdx. rewrite (Hd K (le_n _)) in Hdx. inversion Hdx; subst x.
              rewrite (field_leaves_dash _ _ _ Hent Hn) in Hpl. apply In_prefix in Hpl as [p' [Ep Hp']].
              apply Hl in Hp'. unfold obje in Hp'. apply in_flat_map in Hp' as [y [Hy Hpy]].
              apply merged_In in Hy as [co [subo [Ho [Eco Hyo]]]].
              exists (SInline co subo). split; [exact Ho|]. simpl. rewrite Eco, Esub.
              apply In_prefix. exists p'. split; [exact Ep|]. apply in_flat_map. exists y. split; assumption.
           -- rewrite (Hno eq_refl) in Hi. destruct Hslots as [_ Hsl]. destruct (Hsl _ _ Ef) as [e0 [He0 [He1 He2]]].
-             rewrite Hi in He0. inversion He0; subst e0. rewrite dash_json in He2. try rewrite mk_field_type in He2. simpl in He2.
+             rewrite Hi in He0. inversion He0; subst e0. rewrite dash_json in He2. try rewrite mk_field_f_type in He2. simpl in He2.
              destruct e as [[n0 tg0] x0]. simpl in He1, He2. inversion He1; subst n0 tg0. subst T. simpl in He2. subst x0.
              rewrite field_leaves_dash_nil in Hpl. destruct Hpl.
         * (* spread *)
-          pose proof (fired_dash _ _ c Hent (spread_cond_uniq _ _ _ Hs)) as Hf.
-          assert (Hex : exists l, In (c, l) conds /\ In k l).
+          subst k. pose proof (fired_dash _ _ c Hent (spread_cond_uniq _ _ _ Hs)) as Hf.
+          assert (Hex : exists l, In (c, l) conds /\ In (tk 2%N F0) l).
           { pose proof (F5 _ Hs) as Hcc. simpl in Hcc. rewrite (spread_cond _ _ _ Hs) in Hcc. exact Hcc. }
           specialize (Hf Hex). rewrite fired_entry, Hf in Hyes, Hno.
           destruct (subtype S tn c) eqn:Esub.
           -- destruct (Hyes eq_refl) as [x [Hdx Hsx]]. rewrite Hsx in Hi. injection Hi as Ee. subst e.
              pose proof (HK _ Hs) as Hq. simpl in Hq. destruct (Hq Esub) as [v [He' [Hd [Hn Hl]]]].
-             subst T. try rewrite mk_field_type in Hdx. simpl in Hdx. unfold dec in Hdx. rewrite (Hd K (le_n _)) in Hdx. inversion Hdx; subst x.
+             subst T. try rewrite mk_field_f_type in Hdx. simpl in Hdx. unfold dec in Hdx. rewrite (Hd K (le_n _)) in Hdx. inversion Hdx; subst x.
              rewrite (field_leaves_dash _ _ _ Hent Hn) in Hpl. apply In_prefix in Hpl as [p' [Ep Hp']].
-             apply Hl in Hp'. exists (SSpread k c body). split; [exact Hs|]. simpl. rewrite Esub.
+             apply Hl in Hp'. exists (SSpread F0 c body). split; [exact Hs|]. simpl. rewrite Esub.
              apply In_prefix. exists p'. split; [exact Ep | exact Hp'].
           -- rewrite (Hno eq_refl) in Hi. destruct Hslots as [_ Hsl]. destruct (Hsl _ _ Ef) as [e0 [He0 [He1 He2]]].
-             rewrite Hi in He0. inversion He0; subst e0. rewrite dash_json in He2. try rewrite mk_field_type in He2. simpl in He2.
+             rewrite Hi in He0. inversion He0; subst e0. rewrite dash_json in He2. try rewrite mk_field_f_type in He2. simpl in He2.
              destruct e as [[n0 tg0] x0]. simpl in He1, He2. inversion He1; subst n0 tg0. subst T. simpl in He2. subst x0.
              rewrite field_leaves_dash_nil in Hpl. destruct Hpl.
       + (* a response key *)
-        destruct (field_key_props _ _ Hent) as [a [f [sub [Hs [Ek _]]]]].
+        destruct (field_key_props _ _ Hent) as [a [f [sub [Hs [Ek _]]]]]. subst k.
         destruct (slot_field _ _ _ Hs) as [i' [T' [w [v [L [He' [Hi' [Hb [Ha [Hd [Hl Hx]]]]]]]]]]].
-        rewrite <- Ek in *. destruct (entry_unique fields F1 _ _ _ _ _ Hent He') as [ET _]. subst T'.
+        destruct (entry_unique fields F1 _ _ _ _ _ Hent He') as [ET _]. subst T'.
         assert (i' = i) by (apply (nodup_map_nth gf_name fs i' i _ _ fs_names_nd Hi' Ef); reflexivity). subst i'.
         rewrite fired_entry in Hno. rewrite (Hno (fired_nondash _ _ Hent)) in Hi. rewrite Hb in Hi. injection Hi as Ee. subst e.
         rewrite (field_leaves_nondash _ _ _ Hent) in Hpl.
@@ -778,10 +648,10 @@ Section FinalDecode.
         destruct Hx as [Hx1 _]. apply Hx1 in Hpl. apply In_prefix in Hpl as [p' [Ep Hp']]. apply In_prefix. exists p'. split; [exact Ep | apply Hl; exact Hp'].
       + simpl in Hpl. destruct (subtype S tn (inline_cond m c)) eqn:Esub; [|destruct Hpl].
         pose proof (HK _ Hs) as Hq. simpl in Hq. destruct (Hq Esub) as [T [v [He [Hd [Hn Hl]]]]].
-        pose proof (entry_fs fields _ _ _ He) as Hf. fold fs in Hf. apply In_nth_error in Hf as [i Hi].
+        pose proof (entry_fs fields nm _ _ _ He) as Hf. fold fs in Hf. apply In_nth_error in Hf as [i Hi].
         destruct (Hres _ _ Hi) as [Hyes _]. rewrite fired_entry in Hyes.
         rewrite (fired_dash _ _ (inline_cond m c) He (inline_cond_uniq _ _ Hs) (F5 _ Hs)), Esub in Hyes.
-        destruct (Hyes eq_refl) as [x [Hdx Hsx]]. try rewrite mk_field_type in Hdx. simpl in Hdx. unfold dec in Hdx.
+        destruct (Hyes eq_refl) as [x [Hdx Hsx]]. try rewrite mk_field_f_type in Hdx. simpl in Hdx. unfold dec in Hdx.
         rewrite (Hd K (le_n _)) in Hdx. inversion Hdx; subst x.
         eexists. split; [apply (nth_error_In _ _ Hsx)|]. rewrite (field_leaves_dash _ _ _ He Hn).
         apply In_prefix in Hpl as [p' [Ep Hp']]. apply In_prefix. exists p'. split; [exact Ep|]. apply Hl.
@@ -789,17 +659,17 @@ Section FinalDecode.
         apply merged_In. exists c, sub. repeat split; assumption.
       + simpl in Hpl. destruct (subtype S tn c) eqn:Esub; [|destruct Hpl].
         pose proof (HK _ Hs) as Hq. simpl in Hq. destruct (Hq Esub) as [v [He [Hd [Hn Hl]]]].
-        pose proof (entry_fs fields _ _ _ He) as Hf. fold fs in Hf. apply In_nth_error in Hf as [i Hi].
+        pose proof (entry_fs fields nm _ _ _ He) as Hf. fold fs in Hf. apply In_nth_error in Hf as [i Hi].
         destruct (Hres _ _ Hi) as [Hyes _]. rewrite fired_entry in Hyes.
-        assert (Hex : exists l, In (c, l) conds /\ In F l).
+        assert (Hex : exists l, In (c, l) conds /\ In (tk 2%N F) l).
         { pose proof (F5 _ Hs) as Hcc. simpl in Hcc. rewrite (spread_cond _ _ _ Hs) in Hcc. exact Hcc. }
         rewrite (fired_dash _ _ c He (spread_cond_uniq _ _ _ Hs) Hex), Esub in Hyes.
-        destruct (Hyes eq_refl) as [x [Hdx Hsx]]. try rewrite mk_field_type in Hdx. simpl in Hdx. unfold dec in Hdx.
+        destruct (Hyes eq_refl) as [x [Hdx Hsx]]. try rewrite mk_field_f_type in Hdx. simpl in Hdx. unfold dec in Hdx.
         rewrite (Hd K (le_n _)) in Hdx. inversion Hdx; subst x.
         eexists. split; [apply (nth_error_In _ _ Hsx)|]. rewrite (field_leaves_dash _ _ _ He Hn).
         apply In_prefix in Hpl as [p' [Ep Hp']]. apply In_prefix. exists p'. split; [exact Ep|]. apply Hl. exact Hp'.
   Qed.
-  Transparent mk_field.
+  Transparent mk_field_f.
 End FinalDecode.
 
 (** ** the generated type of a selection set decodes a conforming response object *)
@@ -813,14 +683,20 @@ Section CompositeDecodes.
   Variable fields : list (name * (gotype * bool)).
   Variable conds : list (name * list name).
 
-  Notation Good := (GoodD S frs).
+  Variable FG : program -> Prop.
+  Notation Good := (GoodDP S FG).
   Hypothesis F1 : NoDup (map fst fields).
   Hypothesis F3 : forall k T dash, In (k, (T, dash)) fields -> entry_src S Good m all all k T dash.
   Hypothesis F4 : forall s, In s all -> entry_cov S Good m all fields s.
   Hypothesis F5 : forall s, In s all -> cond_cov frs m conds s.
   Hypothesis F6 : forall tc l x, In (tc, l) conds -> In x l -> cond_src frs m all tc x.
   Hypothesis E1 : lookup_type S m = Some d.
-  Hypothesis E2 : members_distinct m all = true.
+  Variable nm : name -> name.
+  Hypothesis Hnm : forall k1 T1 d1 k2 T2 d2,
+    In (k1, (T1, d1)) fields -> In (k2, (T2, d2)) fields -> nm k1 = nm k2 -> k1 = k2.
+  Hypothesis Hext : forall k T dash, In (k, (T, dash)) fields ->
+    exists us, nm k = field_name (untk k) ++ us /\ all_us us = true.
+  Hypothesis Huu : forall k T, In (k, (T, true)) fields -> starts_uu (untk k) = false.
   Hypothesis E3 : forall s, In s all -> sel_local S frs m s = true.
   Hypothesis E4 : has_fragment all = true -> is_object_type S m = true \/ exists k, first_typename all = Some k.
   Hypothesis E5 : forall k1 f1 k2 f2, In (k1, f1) (direct_fields all) -> In (k2, f2) (direct_fields all) ->
@@ -829,13 +705,13 @@ Section CompositeDecodes.
                               begins_with_letter k = true \/ (is_typename k = true /\ is_typename f = true).
   Variable idx : N.
 
-  Let fs := sort_fields (map mk_field fields).
+  Let fs := sort_fields (map (mk_field_f nm) fields).
   Let tnKey := match first_typename all with Some k => k | None => typename_name end.
-  Let steps := mk_steps no_quirks S m d tnKey conds.
+  Let steps := mk_steps_f S nm m d (nm (tk 0%N tnKey)) conds.
   Let core := match conds with [] => GStruct fs | _ :: _ => GSel m idx fs steps end.
 
   Variable P : program.
-  Hypothesis HP : frags_gen S frs P.
+  Hypothesis HP : FG P.
   Hypothesis Hsyn : type_syntax_ok core = true.
   Hypothesis HspreadD : forall F c body, In (SSpread F c body) all ->
     forall tn rfs, objc S body c tn rfs = true ->
@@ -847,15 +723,15 @@ Section CompositeDecodes.
     intros Hconf.
     destruct (uniform_bound all (Qs S m all fields P tn rfs)) as [K HK].
     { intros s k k'. apply Qs_mono. }
-    { intros s Hs. apply (Qs_exists S frs m d all fields conds F4 F5 F6 E3 E5 idx P HP Hsyn HspreadD tn rfs Hconf s Hs). }
-    destruct (base_exists S frs m all fields F1 F3 E2 E5 E6 P tn rfs Hconf K HK) as [base [Hbase Hslots]].
-    destruct (final_value S frs HS m d all fields conds F1 F3 F4 F5 F6 E1 E2 E3 E4 E6 idx P Hsyn tn rfs Hconf K HK base Hslots)
+    { intros s Hs. apply (Qs_exists S frs m d all fields conds FG F4 F5 F6 nm E3 E5 idx P HP Hsyn HspreadD tn rfs Hconf s Hs). }
+    destruct (base_exists S m all fields FG F1 F3 nm Hnm Hext E5 E6 P tn rfs Hconf K HK) as [base [Hbase Hslots]].
+    destruct (final_value S frs HS m d all fields conds FG F1 F3 F4 F5 F6 E1 nm Hnm Hext Huu E3 E4 E6 idx P Hsyn tn rfs Hconf K HK base Hslots)
       as [sv' [Hrun Hl]].
     apply (decodes_intro P core _ _ (Datatypes.S K) (VStruct sv')); [|exact Hl].
     rewrite decode_S. unfold core, decode_body, fs, steps, tnKey in *.
     change (json_of (RObj tn rfs)) with (JObj (map (fun kv : bytes * rv => (fst kv, json_of (snd kv))) rfs)).
     case_eq conds.
-    - intros Ec. rewrite Hbase. simpl. unfold mk_steps in Hrun. rewrite Ec in Hrun. simpl in Hrun. inversion Hrun. reflexivity.
+    - intros Ec. rewrite Hbase. simpl. unfold mk_steps_f in Hrun. rewrite Ec in Hrun. simpl in Hrun. inversion Hrun. reflexivity.
     - intros c0 cr Ec. rewrite Hbase. cbn [dbind]. rewrite <- Ec. rewrite Hrun. reflexivity.
   Qed.
 End CompositeDecodes.
